@@ -354,7 +354,7 @@ def run_explore(job):
     o = mk_opts(raises='minmax', show=(None, True, False) if sub != 'unknown-cards' else (None,),
                 deal='mix' if sub == 'unknown-cards' else 'default',
                 discards=('none', 'first', 'all') if cfg['code'] in ('N2L1D', 'F2L3D', 'FB') else ('none',),
-                runouts=(None,))
+                runouts=(None,), show_players=(None, False) if sub != 'unknown-cards' else False)
     mon = RoundTrip(cfg, game, check_corruptions=(sub == 'plain' and cfg['autos'] == PHH_AUTOS and cfg['mode'] == 'cash'))
     stats, ctx = explore(cfg, monitors=[mon], menu_opts=o, dev_bound=job['dev_bound'], merge=False,
                          build=lambda c: game(stacks, len(stacks)), sample_every=1)
